@@ -318,19 +318,21 @@ def eval_tree(tree, val: dict) -> Optional[Fraction]:
 
 # --------------------------------------------------------------------- error-bounded normal form
 
-def from_tree_with_error(tree, radius: Fraction) -> Tuple[Poly, Poly, Poly, Poly]:
+def from_tree_with_error(tree, radius: Fraction, unit: Fraction = Fraction(0)) -> Tuple[Poly, Poly, Poly, Poly]:
     """(N, D, EN, ED): the normal form N/D of the tree and coefficient-wise bounds EN, ED such that
     for every tree of the same shape whose numerals differ from this tree's by at most `radius`
     each, with normal form N*/D* computed the same way, |N - N*| <= EN and |D - D*| <= ED
-    coefficient-wise.  (Interval arithmetic on coefficients; second-order terms included.)"""
-    radius = Fraction(radius)
+    coefficient-wise.  (Interval arithmetic on coefficients; second-order terms included.)
+    `unit`: every fluent occurrence is read as 1*fluent with that numeral 1 uncertain by `unit`
+    (a printer may leave out a factor that rounds to 1)."""
+    radius, unit = Fraction(radius), Fraction(unit)
     if isinstance(tree, str):
         return p_const(Fraction(tree)), p_const(1), (p_const(radius) if radius else {}), {}
     head = tree[0]
     if head not in OPS:
-        return p_var(tuple(tree)), p_const(1), {}, {}
-    n1, d1, en1, ed1 = from_tree_with_error(tree[1], radius)
-    n2, d2, en2, ed2 = from_tree_with_error(tree[2], radius)
+        return p_var(tuple(tree)), p_const(1), ({((tuple(tree), 1),): unit} if unit else {}), {}
+    n1, d1, en1, ed1 = from_tree_with_error(tree[1], radius, unit)
+    n2, d2, en2, ed2 = from_tree_with_error(tree[2], radius, unit)
 
     def mul(a, ea, b, eb):
         # |ab - a*b*| <= |a| eb + ea |b| + ea eb   (with |a*| <= |a| + ea)
